@@ -69,9 +69,11 @@ Record state := mkState {
   st_names : list (N * list owner);         (* registry: well-known name -> owner queue, primary first; queues are non-empty *)
   st_pend : list pend;                      (* connections->pending_replies->items, first link first *)
   st_now : N;                               (* monotonic clock, ms *)
-  st_rules : list (N * rule) }.             (* matchmaker: (owner, rule) *)
+  st_rules : list (N * rule);               (* matchmaker: (owner, rule) *)
+  st_full : list N }.                       (* connections that do not read and whose outgoing queue AT THE BUS is over
+                                               limits.max_outgoing_bytes (dbus_connection_get_outgoing_size > limit) *)
 
-Definition init : state := mkState [] 0 [] [] 0 [].
+Definition init : state := mkState [] 0 [] [] 0 [] [].
 
 Inductive event :=
 | EConnect (fds : bool)                                   (* new connection, authenticated, Hello done *)
@@ -80,13 +82,18 @@ Inductive event :=
 | ETick (d : N)                                           (* d ms pass with the bus idle *)
 | ERequestName (c : N) (serial : N) (n : N) (allow replace dnq : bool)
 | EReleaseName (c : N) (serial : N) (n : N)
-| EAddMatch (c : N) (serial : N) (rl : rule).
+| EAddMatch (c : N) (serial : N) (rl : rule)
+| EBlock (c : N)        (* c stops reading and other traffic drives its queue at the bus over max_outgoing_bytes *)
+| EDrain (c : N).       (* c reads everything again *)
 
 (* ---------------------------------------------------------------- connections *)
 Definition find_conn (cs : list conn) (c : N) : option conn := find (fun x => c_id x =? c) cs.
 Definition connected (st : state) (c : N) : bool := match find_conn (st_conns st) c with Some _ => true | None => false end.
 (* dbus_connection_can_send_type (r, DBUS_TYPE_UNIX_FD) *)
 Definition conn_fds (st : state) (c : N) : bool := match find_conn (st_conns st) c with Some x => c_fds x | None => false end.
+
+(* dbus_connection_get_outgoing_size (c) > limits.max_outgoing_bytes *)
+Definition is_full (st : state) (c : N) : bool := existsb (N.eqb c) (st_full st).
 
 (* ---------------------------------------------------------------- pending replies *)
 (* the comparison used by both loops in bus/connection.c *)
@@ -131,7 +138,7 @@ Definition can_receive (cf : cfg) (m : msg) (requested : bool) : bool :=
 (* bus_context_check_security_policy (sender = c active, addressed = proposed = r).
    Returns the pending list as it is when the function returns (nothing is rolled back
    on a refusal: cancel hooks only run on OOM) and the error, if refused. *)
-Definition check_security_policy (cf : cfg) (now : N) (pl : list pend) (c r : N) (m : msg) : list pend * option err :=
+Definition check_security_policy (cf : cfg) (now : N) (pl : list pend) (c r : N) (m : msg) (full : bool) : list pend * option err :=
   let '(pl1, requested) :=
     if m_rserial m =? 0 then (pl, false)
     else match check_reply pl c r (m_rserial m) with
@@ -140,6 +147,7 @@ Definition check_security_policy (cf : cfg) (now : N) (pl : list pend) (c r : N)
          end in
   if negb (can_send cf m requested) then (pl1, Some EAccessDenied)
   else if negb (can_receive cf m requested) then (pl1, Some EAccessDenied)
+  else if full then (pl1, Some ELimitsExceeded)          (* "destination has a full message queue": BEFORE the slot is recorded *)
   else match m_type m with
        | TCall => expect_reply cf now pl1 c r m
        | _ => (pl1, None)
@@ -278,13 +286,13 @@ Definition eavesdroppers (st : state) (c r : N) (m : msg) : list N := eav_list s
    table access), silently dropped when refused: the restrictive policy has no eavesdrop="true" rule; fd capability *)
 Definition eav_out (cf : cfg) (st : state) (c r : N) (m : msg) : out :=
   map (fun e => (e, OEav c m))
-      (filter (fun e => negb (restrictive cf) && negb ((0 <? m_nfds m) && negb (conn_fds st e))) (eavesdroppers st c r m)).
+      (filter (fun e => negb (restrictive cf) && negb ((0 <? m_nfds m) && negb (conn_fds st e)) && negb (is_full st e)) (eavesdroppers st c r m)).
 
 (* ---------------------------------------------------------------- steps *)
 Definition set_pend (st : state) (pl : list pend) : state :=
-  mkState (st_conns st) (st_next st) (st_names st) pl (st_now st) (st_rules st).
+  mkState (st_conns st) (st_next st) (st_names st) pl (st_now st) (st_rules st) (st_full st).
 Definition set_names (st : state) (nm : list (N * list owner)) : state :=
-  mkState (st_conns st) (st_next st) nm (st_pend st) (st_now st) (st_rules st).
+  mkState (st_conns st) (st_next st) nm (st_pend st) (st_now st) (st_rules st) (st_full st).
 
 (* bus_dispatch, "route to named service" branch, then bus_dispatch_matches and the out: label *)
 Definition dispatch (cf : cfg) (st : state) (c : N) (m : msg) : state * out :=
@@ -295,7 +303,7 @@ Definition dispatch (cf : cfg) (st : state) (c : N) (m : msg) : state * out :=
        are going to be delivered (order since the fix for finding F7) *)
     if (0 <? m_nfds m) && negb (conn_fds st r) then (st, [(c, OErr ENotSupported (m_serial m))])
     else
-    let '(pl, res) := check_security_policy cf (st_now st) (st_pend st) c r m in
+    let '(pl, res) := check_security_policy cf (st_now st) (st_pend st) c r m (is_full st r) in
     let st' := set_pend st pl in
     match res with
     | Some e => (st', [(c, OErr e (m_serial m))])
@@ -306,31 +314,36 @@ Definition dispatch (cf : cfg) (st : state) (c : N) (m : msg) : state * out :=
 Definition disconnect (cf : cfg) (st : state) (c : N) : state * out :=
   let conns := filter (fun x => negb (c_id x =? c)) (st_conns st) in
   let '(pl, o) := expire_pass cf (st_now st) (drop_pending (st_pend st) c) in
-  (mkState conns (st_next st) (names_drop (st_names st) c) pl (st_now st) (filter (fun x => negb (fst x =? c)) (st_rules st)), o).
+  (mkState conns (st_next st) (names_drop (st_names st) c) pl (st_now st) (filter (fun x => negb (fst x =? c)) (st_rules st))
+           (filter (fun x => negb (x =? c)) (st_full st)), o).
 
 Definition tick (cf : cfg) (st : state) (d : N) : state * out :=
   let now := st_now st + d in
   let '(pl, o) := expire_pass cf now (st_pend st) in
-  (mkState (st_conns st) (st_next st) (st_names st) pl now (st_rules st), o).
+  (mkState (st_conns st) (st_next st) (st_names st) pl now (st_rules st) (st_full st), o).
 
 (* an event is well-formed when its actor is connected, serials are non-zero and fds are only sent by
    connections that negotiated them; other events are not expressible on a socket and are no-ops here *)
 Definition wf_event (st : state) (e : event) : bool :=
   match e with
   | EConnect _ => true
-  | ESend c m => connected st c && negb (m_serial m =? 0) && ((m_nfds m =? 0) || conn_fds st c)
+  | ESend c m => connected st c && negb (m_serial m =? 0) && ((m_nfds m =? 0) || conn_fds st c) && negb (is_full st c)
   | EDisconnect c => connected st c
   | ETick _ => true
-  | ERequestName c s _ _ _ _ => connected st c && negb (s =? 0)
-  | EReleaseName c s _ => connected st c && negb (s =? 0)
-  | EAddMatch c s _ => connected st c && negb (s =? 0)
+  | ERequestName c s _ _ _ _ => connected st c && negb (s =? 0) && negb (is_full st c)
+  | EReleaseName c s _ => connected st c && negb (s =? 0) && negb (is_full st c)
+  | EAddMatch c s _ => connected st c && negb (s =? 0) && negb (is_full st c)
+  (* modelling restriction: a connection is only stalled while it has no call open, and a stalled connection writes nothing
+     (then the bus never has an error, a NoReply or a driver reply for it, which it would silently drop) *)
+  | EBlock c => connected st c && negb (is_full st c) && forallb (fun p => negb (p_get p =? c)) (st_pend st)
+  | EDrain c => connected st c && is_full st c
   end.
 
 Definition step (cf : cfg) (st : state) (e : event) : state * out :=
   if negb (wf_event st e) then (st, []) else
   match e with
   | EConnect fds =>
-      (mkState (st_conns st ++ [mkConn (st_next st) fds]) (st_next st + 1) (st_names st) (st_pend st) (st_now st) (st_rules st), [])
+      (mkState (st_conns st ++ [mkConn (st_next st) fds]) (st_next st + 1) (st_names st) (st_pend st) (st_now st) (st_rules st) (st_full st), [])
   | ESend c m => dispatch cf st c m
   | EDisconnect c => disconnect cf st c
   | ETick d => tick cf st d
@@ -342,7 +355,11 @@ Definition step (cf : cfg) (st : state) (e : event) : state * out :=
       let '(nm, code) := release (st_names st) c n in
       (set_names st nm, [(c, ODrv s code)])
   | EAddMatch c s rl =>          (* bus_driver_handle_add_match: the rule is stored, empty method return *)
-      (mkState (st_conns st) (st_next st) (st_names st) (st_pend st) (st_now st) (st_rules st ++ [(c, rl)]), [(c, ODrv s 0)])
+      (mkState (st_conns st) (st_next st) (st_names st) (st_pend st) (st_now st) (st_rules st ++ [(c, rl)]) (st_full st), [(c, ODrv s 0)])
+  | EBlock c =>
+      (mkState (st_conns st) (st_next st) (st_names st) (st_pend st) (st_now st) (st_rules st) (c :: st_full st), [])
+  | EDrain c =>
+      (mkState (st_conns st) (st_next st) (st_names st) (st_pend st) (st_now st) (st_rules st) (filter (fun x => negb (x =? c)) (st_full st)), [])
   end.
 
 (* a run: the trace lists (event, output) pairs, OLDEST LAST (head = most recent step) *)
